@@ -160,9 +160,9 @@ pub fn run(cfg: &RunCfg) -> PropRun {
     let fr = &ft;
     let out = enumerate(cfg, "named-shapes", move |shard, nsh| (0..fr.len()).filter(move |i| i % nsh == shard).map(move |i| Case::Text(fr[i].clone())), check_case);
     run.absorb(out);
-    let out = campaign(cfg, ID, "ast", cfg.pick(150_000, 2_000_000), ast_strategy, check_case);
+    let out = campaign(cfg, ID, "ast", cfg.pick(300_000, 3_000_000), ast_strategy, check_case);
     run.absorb(out);
-    let out = campaign(cfg, ID, "algebra", cfg.pick(150_000, 2_000_000), expr_strategy, check_case);
+    let out = campaign(cfg, ID, "algebra", cfg.pick(300_000, 3_000_000), expr_strategy, check_case);
     run.absorb(out);
     run
 }
